@@ -227,7 +227,7 @@ func c10Static(r *engine.Run) bool {
 	ok := true
 	for _, pkg := range []string{"geom", "rtree", "carto"} {
 		fset := token.NewFileSet()
-		files, _ := filepath.Glob(filepath.Join("/repo", pkg, "*.go"))
+		files, _ := filepath.Glob(filepath.Join(engine.Repo, pkg, "*.go"))
 		pkgVars := map[string]bool{}
 		var parsed []*ast.File
 		for _, f := range files {
@@ -305,7 +305,7 @@ func isPkgLevel(o *ast.Object) bool {
 }
 
 func c10Race(r *engine.Run) {
-	bin := filepath.Join(engine.Root, "bin", "verifrace")
+	bin := filepath.Join(engine.Out, "bin", "verifrace")
 	if _, err := os.Stat(bin); err != nil {
 		r.EngineError("race binary missing (run.sh builds it with go build -race): " + err.Error())
 		return
